@@ -25,6 +25,10 @@ EXPECT_UNDECIDED = {
     "C07.agent-refactor": "Commissioning split into four generators: the three loop invariants are written over one "
                           "function's locals (the 'finished' flag became a return value, the address list is handed "
                           "over by reference)",
+    "C01.dispatch-cache": "a correct module-level cache of which command family claimed a frame: decoding keeps state, so "
+                          "the purity proof (no store to pre-existing state) does not go through, while the bounded search "
+                          "finds no decode that depends on an earlier one - undecided by design, never a violation",
+    "C06.status-cache": "a correct cache of the bit names per (response class, answer byte) on the module: same reasoning",
     "C07.agent-modernise": "Commissioning rewritten with nested generator closures (`sweep()`, `program()`), a generator "
                            "expression as the scan domain and `while True` instead of the `finished` flag: the loop headers "
                            "differ from the pinned ones and the invariants are not re-established, so the failures are "
